@@ -200,7 +200,7 @@ def same_value(a, b):
 def impl_state():
     import xfab
 
-    return (bool(xfab.CHECKS.activated), xfab.CHECKS._run_checks if hasattr(xfab.CHECKS, "_run_checks") else None)
+    return (bool(xfab.CHECKS.activated), None)
 
 
 def do_assign(value):
@@ -340,7 +340,11 @@ def check_case(case):
                     ms, mout = model_assign(s, val)
                     r.evals += 1
                     r.transitions += 1
-                    if out != mout or impl_state()[0] != ms or impl_state()[1] is not ms:
+                    # (only the public property `activated` is observed; how the object stores it is its own business; that the value read
+                    # back is the bool True / False itself and not something merely truthy is part of "its state is the last valid value")
+                    import xfab as _x
+
+                    if out != mout or impl_state()[0] != ms or _x.CHECKS.activated is not ms:
                         r.violation("assign:%s:from=%s" % (lab, s), "assignment to the switch follows the two-state machine", [ms, mout], [impl_state(), out])
                     if ms not in seen:
                         seen.add(ms)
